@@ -380,6 +380,9 @@ def _apply_mutator(mutator, exprs, max_depth=None):
         check_func = _check_par if taskgen.pickled_exprs else _check_seq
         exprs = check_func(taskgen, nexprs, stats)
         exprs = nodes.reduplicate(exprs)
+        # the symbol tables are keyed by node id, and the copies made above
+        # have ids of their own: collect them for the input of the next round
+        smtlib.collect_information(exprs)
         gran = gran // 2
         taskgen = TaskGenerator(exprs, gran, mutator, max_depth)
 
